@@ -77,7 +77,8 @@ Inductive op :=
 | Put (run det v : N) | Assoc (tag : N) (rs : list refspec) | Prune (rs : list refspec)
 | RemoveRun (n : N) | EmptyTrash
 | SetChain (c : N) (ch : list N) | Prepend (c : N) (ch : list N) | Extend (c : N) (ch : list N) | Unchain (c : N) (ch : list N)
-| RegDT (n v : N).
+| RegDT (n v : N)
+| RegDTG (n v : N).   (* dataset type over a dimension group not yet saved by this client; v = variant + 2 * (group + 1) *)
 
 (* per-op scratch of a client: phase, ids read earlier, trash rows read earlier, files still to delete, flag *)
 Record scratch := mkS { ph : nat; ids : list N; rows : list (N * path); todo : list path; flag : bool }.
@@ -273,6 +274,19 @@ Definition mstep (fixed : bool) (slots : list (path * N)) (g : gstate) (own : li
              | Some r => (g, Done r own)
              | None => (with_dtypes g (dtypes g ++ [(n, v)]), Done (OkB true) own) end
       end
+  | RegDTG n v =>
+      (* read (compare if the name exists) ; block: save the dimension group (get-or-create of its key, re-read inside
+         the lock -- see dg_step below; no observable) ; block: create the dynamic tables ; block: sync the dataset type *)
+      let chk := fun (g : gstate) => match lookup n (dtypes g) with
+                                     | Some v' => Some (if v =? v' then OkB false else Err EConflict) | None => None end in
+      match ph s with
+      | O => match chk g with Some r => (g, Done r own) | None => (g, Cont (at_ph 1 s)) end
+      | 1%nat => (g, Cont (at_ph 2 s))
+      | 2%nat => (g, Cont (at_ph 3 s))
+      | _ => match chk g with
+             | Some r => (g, Done r own)
+             | None => (with_dtypes g (dtypes g ++ [(n, v)]), Done (OkB true) own) end
+      end
   end.
 
 (* kind of the step about to run: 0 transaction block, 1 reads outside a block, 2 file operation *)
@@ -282,7 +296,7 @@ Definition skind (fixed : bool) (o : op) (s : scratch) : N :=
   | Prune _ => match ph s with O => 0 | k => et k end
   | RemoveRun _ => match ph s with O | 2%nat | 3%nat => 0 | k => et k end
   | EmptyTrash => match ph s with O => 1 | k => et k end
-  | RegDT _ _ => match ph s with O => 1 | _ => 0 end
+  | RegDT _ _ | RegDTG _ _ => match ph s with O => 1 | _ => 0 end
   | SetChain _ _ | Prepend _ _ | Extend _ _ | Unchain _ _ => 0
   | _ => 0
   end.
@@ -376,3 +390,27 @@ Definition run_data (g : gstate) (run : N) : list (N * option N) :=
   map (fun d => (d_det d, read_ds g d)) (filter (fun d => d_run d =? run) (dsets g)).
 Definition tag_data (g : gstate) (tag : N) : list (N * N) :=
   flat_map (fun t => if fst t =? tag then match dset_of g (snd t) with Some d => [(d_run d, d_det d)] | None => [] end else []) (tags g).
+
+(* ---- the dimension-group key: get-or-create arbitrated ONLY by "lock, then re-read" (the tables have no uniqueness
+        constraint over the set of names).  inside = true: _DimensionGroupStorage.save as it is (refresh inside the locked
+        block: one step); inside = false: the variant that refreshes before taking the lock (snapshot; then the block) *)
+Definition dgtab := list (N * N).                         (* (key, dimension group) *)
+Record dgclient := mkDG { dg_group : N; dg_snap : option dgtab; dg_done : bool }.
+Definition dg_known (t : dgtab) (grp : N) : bool := existsb (fun e => snd e =? grp) t.
+Definition dg_insert (t : dgtab) (grp : N) : dgtab := t ++ [(N.of_nat (length t), grp)].
+Definition dg_step (inside : bool) (t : dgtab) (c : dgclient) : dgtab * dgclient :=
+  if dg_done c then (t, c)
+  else if inside then ((if dg_known t (dg_group c) then t else dg_insert t (dg_group c)), mkDG (dg_group c) None true)
+  else match dg_snap c with
+       | None => (t, mkDG (dg_group c) (Some t) false)
+       | Some snap => ((if dg_known snap (dg_group c) then t else dg_insert t (dg_group c)), mkDG (dg_group c) None true)
+       end.
+Fixpoint dg_run (inside : bool) (t : dgtab) (cs : list dgclient) (sched : list nat) : dgtab * list dgclient :=
+  match sched with
+  | [] => (t, cs)
+  | k :: r => match nth_error cs (Nat.modulo k (Nat.max 1 (length cs))) with
+              | None => (t, cs)
+              | Some c => let '(t', c') := dg_step inside t c in
+                          dg_run inside t' (upd (Nat.modulo k (Nat.max 1 (length cs))) c' cs) r
+              end
+  end.
